@@ -2,6 +2,8 @@ CONSTANTS
   BB = 2
   WB = 1
   MaxN = 11
+  LemmaP = 4
+  LemmaN = 9
   MaxK = 3
 SPECIFICATION Spec
 INVARIANTS Built Sorted Building RankLoopInv BSearchInv ScanInv Result DefLemmas MeasureNat NotStuck
